@@ -30,6 +30,9 @@ NAN = float("nan")
 GRID_VALUES = [0.25, 0.625, NAN]
 
 
+ODD_NAMES = ["-1st", "(3)rd", "1st", "_x1", "x.y", "x-y", "9", "-", "a b"]
+
+
 def bases():
     return c13.engine_recipes()[:5]
 
@@ -133,6 +136,19 @@ def run_recipe(acc: Acc, group: str, label: str, recipe: dict, d: int) -> None:
         if ex.to_string(E) != T1:
             acc.violate("not-repeatable", {"group": group}, case, T1[:200], "differs", f"[{label}] d={d}: exporting the same engine twice gives different text")
             return
+        # argument kinds: the same engine built from numpy.float32 scalars exports the same text (when every number is
+        # exactly representable in single precision, so that the two engines hold the same values)
+        nums = [v for _, v in numbers_of(recipe)]
+        if d in (3, 9) and all(v != v or abs(v) == math.inf or float(np.float32(v)) == v for v in nums):
+            T32 = ex.to_string(R.build_with_number(recipe, np.float32))
+            acc.transitions += 1
+            acc.cls("float32_builds")
+            if T32 != T1:
+                l1, l2 = T1.split("\n"), T32.split("\n")
+                diff = next(((a, b) for a, b in itertools.zip_longest(l1, l2) if a != b), ("", ""))
+                acc.violate("argument-kind", {"kind": "float32"}, case, diff[0], diff[1],
+                            f"[{label}] d={d}: the engine built from numpy.float32 arguments exports {diff[1]!r} instead of {diff[0]!r}")
+                return
         try:
             E2 = im.from_string(T1)
         except Exception as exn:  # noqa: BLE001
@@ -211,6 +227,13 @@ def text_variants(text: str):
     yield "int-looking", [re.sub(r"(?<![\w.])(-?\d+)\.0+(?![\w.])", r"\1", ln) if data(ln) else ln for ln in lines]
     yield "over-precise", [re.sub(r"(?<![\w.])(-?\d+\.\d*[1-9])0*(?![\w.])", r"\g<1>0000000000004", ln) if data(ln) else ln for ln in lines]
     yield "crlf-free-tabs", [ln.replace("  ", "\t", 1) if ln.startswith("  ") else ln for ln in lines]
+    # names that are not identifiers (the importer rewrites them): an extra unused variable / an extra term
+    first_var = next(i for i, ln in enumerate(lines) if ln.startswith("InputVariable:"))
+    end_var = next(i for i in range(first_var + 1, len(lines)) if not lines[i].startswith("  "))
+    for odd in ODD_NAMES:
+        block = [f"InputVariable: {odd}"] + [ln for ln in lines[first_var + 1:end_var]]
+        yield f"odd-variable-name:{odd}", lines[:end_var] + block + lines[end_var:]
+        yield f"odd-term-name:{odd}", lines[:end_var] + [f"  term: {odd} Triangle 0.000 0.500 1.000"] + lines[end_var:]
 
 
 def run_variants(acc: Acc, recipe: dict, d: int) -> None:
@@ -296,8 +319,8 @@ def summarize(tier: str, seed: int, merged: dict) -> dict:
         "rule": (
             f"5 base engines + every single-field deviation ({n_single} engines"
             + (", plus every pair of deviations from different groups on the Mamdani and Takagi-Sugeno bases" if tier == "thorough" else "")
-            + f") x decimals {decimals_for(tier)}; text variants (comments, blank lines, key order, omitted keys, int-looking and "
-            "over-precise numbers) of the 5 base documents at decimals 3 and 9. states = engines, transitions = exports/imports/"
+            + f") x decimals {decimals_for(tier)} (at decimals 3 and 9 also built from numpy.float32 arguments); text variants (comments, blank lines, key order, omitted keys, int-looking and "
+            f"over-precise numbers, an extra variable / term named each of {ODD_NAMES}) of the 5 base documents at decimals 3 and 9. states = engines, transitions = exports/imports/"
             "process calls, traces = structural comparisons; every case is non-trivial"
         ),
         "exhaustive": True,
